@@ -805,6 +805,17 @@ func (e *Exec) strConst(s string) string {
 
 func (e *Exec) ensureStrDecls() {}
 
+// decimalAxioms: formatting an integer and parsing it back give the integer; a formatted integer has no
+// surrounding white space. Emitted once per VC, only where a contract uses atoi / trimsp.
+func (e *Exec) decimalAxioms() {
+	if e.discovery || e.vc.declared["decimal-axioms"] {
+		return
+	}
+	e.vc.declared["decimal-axioms"] = true
+	e.vc.add("(assert (forall ((v!d Int)) (! (= (atoi (strfromint v!d)) v!d) :pattern ((strfromint v!d)))))")
+	e.vc.add("(assert (forall ((v!d Int)) (! (= (trimsp (strfromint v!d)) (strfromint v!d)) :pattern ((strfromint v!d)))))")
+}
+
 func truncate(s string, n int) string {
 	s = strings.ReplaceAll(s, "\n", "\\n")
 	if len(s) > n {
@@ -826,6 +837,9 @@ func preamble() []string {
 		"(declare-fun strsub (Str Int Int) Str)",
 		"(declare-fun strfromint (Int) Str)",
 		"(declare-fun strofbytes (Int) Str)",
+		"(declare-fun atoi (Str) Int)",    // the integer a decimal text denotes (unconstrained for other texts)
+		"(declare-fun trimsp (Str) Str)",  // strings.TrimSpace
+		"(declare-fun bytesof (Str) Int)", // the backing array of []byte(s): strofbytes(bytesof(s)) = s
 		"(declare-fun pathjoin (Str Str) Str)",
 		"(declare-fun fieldaddr (Int Int) Int)", // address of an interior field (component id, object ref): positive, so never a package-level variable
 		"(assert (= (strlen str!empty) 0))",
